@@ -534,7 +534,11 @@ pub fn execute_add_validator(
         .native_chain_config
         .validators
         .iter()
-        .any(|validator| *validator == new_validator_addr)
+        .any(|validator| {
+            validator
+                .as_str()
+                .eq_ignore_ascii_case(new_validator_addr.as_str())
+        })
     {
         return Err(ContractError::DuplicateValidator {
             validator: new_validator.clone(),
